@@ -14,3 +14,8 @@ def run(ctx, rep):
     more.rule_link_order(mod, rep)
     from ..rules import more2
     more2.rule_dim_row(mod, rep)
+    import re
+    from ..rules import more2
+    more2.rule_arg_names(mod, rep, lambda f: f.name in ("sp_colorder", "get_perm_c", "sp_coletree", "sp_symetree", "getata", "at_plus_a", "get_colamd") or (f.file or "").endswith(("colamd.c", "mmd.c")), floor=1)
+    from ..rules import more3
+    more3.rule_etree_mustwrite(mod, rep)
